@@ -219,13 +219,104 @@ def c03_script_ignore(top: int, ign: int, boost: int) -> bool:
     return ok
 
 
+# ---------------------------------------------------------------- ignore lists: census + scope variables
+IGN_TEXT = ("class G { G(); enum Lvl { L1, L2 }; void run() const; };\n"
+            "namespace ns { class A { A(); enum Kind { K1 }; }; class AB { AB(); };\n"
+            "  template<T = {double}, U = {ns::A}> class Pr { Pr(T t); enum Mode { M1, M2 }; U second() const; };\n"
+            "  template<T> class Bx { Bx(); enum Flag { F1 }; };\n"
+            "  typedef ns::Bx<std::pair<int, ns::A>> BxPair;\n"
+            "  typedef ns::Pr<int, std::map<int, double>> PrMap;\n"
+            "  class Fwd; typedef ns::Fwd<int, double> FwdInst;\n"
+            "  void keep(); }\n")
+# (python name, module var, exact C++ name, enums of the class)
+IGN_CLASSES = [("G", "m_", "G", ["Lvl"]), ("A", "m_ns", "ns::A", ["Kind"]), ("AB", "m_ns", "ns::AB", []),
+               ("PrDoubleA", "m_ns", "ns::Pr<double, ns::A>", ["Mode"]), ("BxPair", "m_ns", "ns::Bx<std::pair<int, ns::A>>", ["Flag"]),
+               ("PrMap", "m_ns", "ns::Pr<int, std::map<int, double>>", ["Mode"]), ("FwdInst", "m_ns", "ns::Fwd<int,double>", [])]
+NIC = len(IGN_CLASSES)
+
+
+def spell(cpp, form):
+    if form == 1:
+        return cpp.replace(", ", ",")
+    if form == 2:
+        return cpp.replace(", ", " ,  ").replace("<", "< ")
+    return cpp
+
+
+def check_ignore(sel, form, boost):
+    chosen = [c for i, c in enumerate(IGN_CLASSES) if sel >> i & 1]
+    ignore = [spell(c[2], form) for c in chosen]
+    body = pipe.pybind_body(IGN_TEXT, ignore=ignore or [''], boost=bool(boost))
+    ents = readers.parse_pybind(body)
+    problems = []
+    declared = {"m_"}
+    classes, enums = {}, []
+    for e in ents:
+        if e["ent"] == "submodule":
+            declared.add(e["var"])
+        elif e["ent"] == "class":
+            classes[e["name"]] = e
+            if e["module"] not in declared:
+                problems.append("class %s registered in undeclared %s" % (e["name"], e["module"]))
+            if e.get("instance"):
+                declared.add(e["instance"])
+        elif e["ent"] == "enum":
+            enums.append(e)
+            if e["module"] not in declared:
+                problems.append("enum %s registered on %s, which is never declared (its class is ignored)" % (e["name"], e["module"]))
+        elif e["ent"] == "other":
+            problems.append("unrecognised statement %r" % e["stmt"][:80])
+    for py, var, cpp, ens in IGN_CLASSES:
+        listed_exact = cpp in ignore
+        present = py in classes
+        if listed_exact and present:
+            problems.append("ignored class %s is still registered" % cpp)
+        if not present and spell(cpp, form) not in ignore and cpp not in ignore:
+            problems.append("class %s is dropped although the ignore list %r does not name it" % (cpp, ignore))
+        if present and classes[py]["module"] != var:
+            problems.append("class %s in %s, expected %s" % (py, classes[py]["module"], var))
+        # the class and its enums go together (an ignored class's enums hang on a variable that does not exist)
+        inst = classes[py].get("instance") if present else None
+        got_enums = [e["name"] for e in enums if cpp + "::" in e["stmt"].split("(")[0]]
+        if present and sorted(got_enums) != sorted(ens):
+            problems.append("class %s registered with enums %r, declared %r" % (cpp, got_enums, ens))
+        if not present and got_enums:
+            problems.append("class %s is not registered but its enums %r are" % (cpp, got_enums))
+    if not any(e["ent"] == "chain" and any(d.get("name") == "keep" for d in e["defs"]) for e in ents):
+        problems.append("free function keep() lost")
+    if problems:
+        return _fail(ignore=ignore, boost=boost, problems=problems[:6])
+    return True
+
+
+def c03_ignore_census(sel: int, form: int, boost: int) -> bool:
+    """
+    Every subset of 7 classes (global, namespaced, with and without nested enums, two-argument template
+    instantiations, typedef'd instantiations with nested template arguments, instantiated forward declaration) on
+    the ignore list, spelled exactly / without blanks after commas / with extra blanks: a class named exactly is
+    not registered; a class the list does not name is registered; a class and its nested enums are present or absent
+    together; nothing is registered on a scope variable that is not declared.
+    pre: 0 <= sel < 2 ** NIC and 0 <= form <= 2 and 0 <= boost <= 1
+    post: _
+    """
+    sel = pick(sel, 0, 2 ** NIC)
+    form = pick(form, 0, 3) if THOROUGH else sel % 3
+    boost = pick(boost, 0, 2) if THOROUGH else (sel // 3) % 2
+    with concrete():
+        ok = check_ignore(sel, form, boost)
+    reached({"sel": sel, "form": form} if (not ok or sel == 24) else None)
+    return ok
+
+
 def conds(tier):
     q = tier == "quick"
     t = (lambda x, y: x) if q else (lambda x, y: y)
     b = "N0 fixed; N1, sibling from a 3-name pool x 7 top-namespace choices%s" % (
         " x third level x re-opened (serialization derived)" if not q else "; third level / re-open / hollow / serialization derived")
     return [xh.Cond("harness.c03_census", "c03_script_ignore", t(200, 600), kind="shape-bounded", examples=["top=1, ign=4, boost=0", "top=0, ign=0, boost=1"],
-                    bounds="5 --top_module_namespaces values x 5 --ignore forms x serialization")] + [
+                    bounds="5 --top_module_namespaces values x 5 --ignore forms x serialization"),
+            xh.Cond("harness.c03_census", "c03_ignore_census", t(300, 1200), kind="shape-bounded", examples=["sel=8, form=0, boost=0", "sel=8, form=1, boost=0", "sel=48, form=2, boost=1", "sel=127, form=0, boost=0", "sel=0, form=0, boost=1"],
+                    bounds="all 128 subsets of 7 classes on the ignore list x %s" % ("3 spellings x serialization" if not q else "spelling and serialization derived"))] + [
         xh.Cond("harness.c03_census", f, t(420, 3600), kind="shape-bounded", path_timeout=90, examples=ex, bounds=b)
         for f, ex in (("c03_census_a", ["n1=0, n2=0, m0=1, reopen=1, topsel=2, boost=0", "n1=2, n2=0, m0=1, reopen=0, topsel=0, boost=0"]),
                       ("c03_census_b", ["n1=2, n2=0, m0=1, reopen=0, topsel=6, boost=0"]),
